@@ -311,3 +311,7 @@ mod tests {
         assert_eq!(result.len(), 0);
     }
 }
+
+#[cfg(all(test, feature = "pendulum_project_ntpd_rs_verif"))]
+#[path = "../../../../../verif/harness/ntp_proto/algorithm_kalman_select.rs"]
+mod verif_algorithm_kalman_select;
